@@ -1,7 +1,7 @@
 #!/bin/bash
 # usage: tools/confirm_seed.sh <ID> [<sub>]  — independently confirms a sub-agent's seeded change in a fresh scratch worktree:
 #   1. patch only: workspace builds and the 112-test suite passes; 2. + demo: demo fails; 3. patch reverted: demo passes.
-ID="$1"; SUB="$2"; SRC=/tmp/wt/$ID/SEED${SUB:+/$SUB}; W=/tmp/cw/$ID$SUB; LOG=/tmp/cw/$ID$SUB.log
+ID="$1"; SUB="$2"; SRC=/tmp/wt/$ID/${SEEDDIR:-SEED}${SUB:+/$SUB}; W=/tmp/cw/$ID$SUB; LOG=/tmp/cw/$ID$SUB.log
 mkdir -p /tmp/cw; rm -rf "$W"; git -C /repo worktree prune
 git -C /repo worktree add -q --detach "$W" HEAD || exit 3
 export CARGO_TARGET_DIR=/tmp/wt/$ID/target CARGO_NET_OFFLINE=true
